@@ -113,6 +113,16 @@ def run(pid, tier, seed):
         except tyconv.Unrepresentable:
             continue
         inputs.append((raw, t, [(o, d) for o, d in zip(objs, [b[1] for b in built])], "inferred"))
+        if k and len(objs) > 1:
+            # what one generator call's successive yields give (`CallTrace.add_yield_type`): the plain Union of the value
+            # types, TypedDicts not merged — the only way a union of TypedDicts reaches a rewriter
+            import typing
+            try:
+                u = typing.Union[tuple(get_type(o, k) for o in objs[:4])]
+                uraw = tyconv.ty_to_tree(u, tbl)
+            except (tyconv.Unrepresentable, TypeError):
+                continue
+            inputs.append((uraw, u, [(o, d) for o, d in zip(objs[:4], [b[1] for b in built[:4]])], "yield-union"))
     drv.ask(tbl.hier())
     hier_ok = drv.ask(("hierOk",))
     chk.extra["class_table_hypotheses_hold"] = hier_ok
@@ -121,8 +131,9 @@ def run(pid, tier, seed):
     # the formal trigger / normal-form predicates agree with the property's reading on every input
     treqs, tmeta = [], []
     for raw, py, objs, origin in inputs:
-        treqs.append(("normal", raw))
-        tmeta.append(("normal", raw, True))
+        if origin != "yield-union":      # (a plain Union of per-value types may repeat an equal TypedDict: not a normal form)
+            treqs.append(("normal", raw))
+            tmeta.append(("normal", raw, True))
         for name in BASE:
             if name == "noop":
                 continue
